@@ -14,7 +14,7 @@ def hexlit(h):
     return '(unhex "%s")' % ("" if h == "-" else h)
 
 
-def roots_for(U, want=None, exclude=("k13bulk",)):
+def roots_for(U, want=None, exclude=("k13bulk", "arrayvec")):
     out = []
     for i, r in enumerate(U["roots"]):
         if any(t in r["tags"] for t in exclude):
@@ -30,7 +30,7 @@ def shape_key(t):
     k = t["k"]
     if k == "int":
         return t["ity"]
-    if k in ("vec", "seq", "array", "option", "box", "cell"):
+    if k in ("vec", "seq", "array", "option", "box", "cell", "arrayvec"):
         return (k, shape_key(t["t"]))
     if k == "result":
         return (k, shape_key(t["a"]), shape_key(t["b"]))
